@@ -202,10 +202,12 @@ def build(stream, p):
         if cert is not None and tolv == -10 and maxit == 500:
             if not (cert["lo"] - 1e-4 - 1e-9 <= cap <= cert["hi"] + 1e-4 + 1e-9):
                 rec0 = raw[1] if repeats == 1 else raw[1][0]
-                early = repeats == 1 and len(rec0) >= 2 and rec0[-1] == rec0[-2]
+                # the deterministic run ended through the tolerance test (not the iteration cap): the stopping rule fired on
+                # two (nearly) coinciding consecutive estimates before the vector had converged
+                early = repeats == 1 and 2 <= len(rec0) <= maxit
                 return ("capacity %r is not within 1e-4 of the certified log2 spectral radius bracket [%r, %r] (repeats=%d%s)"
                         % (cap, cert["lo"], cert["hi"], repeats,
-                           "; single start stopped on two identical consecutive estimates" if early else ""))
+                           "; single start stopped by the tolerance test after %d estimates" % len(rec0) if early else ""))
         return None
     branching = any(sum(1 for x in r if x >= 0) >= 2 for r in rows)
     return Case(stream, p, call, impl, oracle, domain=True, nontrivial=branching,
@@ -214,7 +216,7 @@ def build(stream, p):
 
 def known_match(finding, stream, payload, why):
     return (finding["id"] == "F9" and payload["repeats"] == 1 and "certified log2 spectral radius bracket" in why
-            and "single start stopped on two identical consecutive estimates" in why)
+            and "single start stopped by the tolerance test" in why)
 
 
 # ---------------------------------------------------------------------------------------- model side
